@@ -31,10 +31,10 @@ Definition show_ev (e : ev) : string :=
   end.
 
 (** case = (dead pids, cas, number of live processes n (pids 0..n-1), initial link, initial holder,
-    processes that start with unlock() on an inherited object, schedule) *)
-Definition run_show (c : list pid * bool * nat * option pid * option pid * list pid * list pid) : string :=
-  let '(ds, cas, n, l0, held, us, sched) := c in
-  let '(s, es) := exec_log (dead_of ds) cas (init_fork l0 held us) sched in
+    processes that start with unlock() on an inherited object, processes that release twice, schedule) *)
+Definition run_show (c : list pid * bool * nat * option pid * option pid * list pid * list pid * list pid) : string :=
+  let '(ds, cas, n, l0, held, us, dbls, sched) := c in
+  let '(s, es) := exec_log (dead_of ds) cas (dead_of dbls) (init_fork l0 held us) sched in
   String.concat "" (map show_ev es)
   ++ "|" ++ match link s with None => "-" | Some q => show_nat q end
   ++ "|" ++ String.concat "," (map show_nat (filter (holds s) (seq 0 n))).
